@@ -179,7 +179,8 @@ func (v objectValidator) validateTypeRules(objectNode *schema.ObjectNode, value 
 		})
 
 		if !inside {
-			if bytes.Equal(node.Value(), value) {
+			// Keys are compared after decoding, however they are spelled.
+			if bytes.Equal(node.Value().Unquote(), value.Unquote()) {
 				flag = true
 			}
 		}
